@@ -223,6 +223,9 @@ func runC04(ctx *Ctx) {
 	defer mr.run(ctx)
 	ix := newCorr("imageextract")
 	defer ix.run(ctx)
+	if ctx.Replay == "" {
+		styleCorr(ctx, ctx.pick(6000, 300000)).run(ctx)
+	}
 	ctx.Rep.Rule = "each hiding technique (script, style, head, comment, hidden attribute, display:none, visibility:hidden/collapse, aria-hidden, form controls, noscript, svg, object, unrecognised iframe) in each carrier (top level, paragraph, list item, data-table cell, figure, figcaption, blockquote, bare div) between long retained paragraphs; distinct by structure; non-trivial = the page contains hidden words and retains visible ones"
 	contentRun{id: "C04", n: [2]int{150, 6000}, url: pageURL,
 		corr: func(ctx *Ctx, x *distilled, replay interface{}) {
